@@ -771,7 +771,7 @@ static bool_t rngIsValid_internal()
 bool_t rngIsValid()
 {
 	bool_t b;
-	if (!_inited)
+	if (!mtCallOnce(&_once, rngInit) || !_inited)
 		return FALSE;
 	mtMtxLock(_mtx);
 	b = rngIsValid_internal();
